@@ -41,7 +41,7 @@ def Err.isSafetyViolation : Err → Bool
 /-- the ancestor-probing loop of `openat2::resolve_partial` -/
 def probe (env : Env) (root : Fd) (rflags : Nat) (nofollow : Bool) :
     List (Bytes × Option Bytes) → Err → M (Lookup Fd)
-  | [], _ => throw (.panic "partial_ancestors should include root path which must be resolvable")
+  | [], lastErr => throw lastErr
   | (p, remaining) :: rest, lastErr => do
     if Err.isSafetyViolation lastErr then throw lastErr else
     match ← M.try' (resolve env root p rflags nofollow) with
